@@ -303,7 +303,7 @@ def unit_tables(P, R):
                     counters = {t.ev['lhs']['name'] for t in f.stores() if t.ev['k'] == 'store' and is_var(t.ev.get('lhs')) and t.ev.get('op') in ('++',) and t.ev['lhs']['name'] != res['ptr']}
                     others = [val for name, val in st.K if name in counters and name not in vars_in(s.ev['rhs'])]
                     colon.append((tuple(others), m))
-    seq = [m for _, m in sorted(set(colon))]
+    seq = [m for _, m in sorted(set(colon), key=lambda x: (x[0], x[1] is None, x[1] or 0))]
     R.ob('C16.TAB.3', seq == [3600, 60], f, 'h:m:s form: the first colon multiplies by 3600, the second by 60 (found %s)' % seq, key='interval:colons')
     R.floor('C16.TAB.3', 14)
 
